@@ -1,9 +1,8 @@
-(* C06 proofs, part F: the per-object key cache of QPDF::getKeyForObject. The cache is keyed by the object only, not
-   by use_aes. As long as every leaf that is decrypted asks for the same kind of key (all RC4, or all AES, or V 5
-   where the file key is used directly) a sequence of leaves is decrypted exactly as each leaf on its own, so the
-   round-trip theorem of part C carries over to sequences; a V 4 file whose /StrF and /StmF differ in kind (one RC4,
-   one AESV2) is the refuted part (finding F11): the stream data of an object whose dictionary holds a string is
-   decrypted with the key computed for the string. *)
+(* C06 proofs, part F: the per-object key cache of QPDF::getKeyForObject. Since fix d9735304 the cache is keyed by the
+   object and by use_aes; it is then transparent (key_cache): a sequence of leaves read through it is decrypted exactly
+   as each leaf on its own, so the round-trip theorem of part C carries over to sequences with no condition on the
+   mixture of RC4 and AES methods. (Before the fix this was refuted: finding F11, a V 4 file whose /StrF and /StmF
+   differ in kind.) *)
 From QV Require Import Base.Bytes Crypto.Nib Filters.Filters Filters.C15ProofsB.
 From QV Require Import Crypto.MD5 Crypto.SHA2Fast Crypto.AES Crypto.AesPdf Crypto.KeyDeriv Crypto.IsoRef Crypto.Perms.
 From QV Require Import Crypto.C05Proofs Crypto.CbcProofs Crypto.AesInv Crypto.C05ProofsB Crypto.C05ProofsC.
@@ -32,62 +31,48 @@ Proof.
     destruct (if 4 <=? c6t_V st then c06_switch (c06_stream_method st s) else Some (false, false)) as [[ua wn]|]; reflexivity.
 Qed.
 
-(* two use_aes flags that lead to the same per-object keys (always so for V 5) *)
-Definition c06_flag_equiv (st : c06_state) (ua ua0 : bool) : Prop :=
-  forall n g, kd_compute_data_key (c6t_key st) n g ua (c6t_V st) = kd_compute_data_key (c6t_key st) n g ua0 (c6t_V st).
-
-Definition c06_uniform (st : c06_state) (ls : list c06_leaf) (ua0 : bool) : Prop :=
-  forall l ua w, In l ls -> c06_leaf_dec st l = Some (ua, w) -> c06_flag_equiv st ua ua0.
-
-Definition c06_cache_ok (st : c06_state) (ua0 : bool) (cache : option c06_cache) : Prop :=
+(* a cache is sound when the key it holds is the key of the object and kind it is labelled with (the empty cache, and
+   every cache getKeyForObject leaves behind) *)
+Definition c06_cache_ok (st : c06_state) (cache : option c06_cache) : Prop :=
   match cache with
   | None => True
-  | Some ch => c6c_key ch = kd_compute_data_key (c6t_key st) (c6c_num ch) (c6c_gen ch) ua0 (c6t_V st)
+  | Some ch => c6c_key ch = kd_compute_data_key (c6t_key st) (c6c_num ch) (c6c_gen ch) (c6c_aes ch) (c6t_V st)
   end.
 
-Lemma c06_seq_is_map : forall st ua0 ls cache,
-  c06_cache_ok st ua0 cache -> c06_uniform st ls ua0 ->
+(* key_cache: the cache of getKeyForObject (keyed by object AND kind of key, fix d9735304) is transparent: from any
+   sound cache, a sequence of leaves in any order, of any mixture of RC4 and AES methods, is decrypted exactly as
+   each leaf on its own *)
+Lemma key_cache_lemma : forall st ls cache,
+  c06_cache_ok st cache ->
   c06_decrypt_seq st cache ls = map (c06_decrypt_leaf st) ls.
 Proof.
-  intros st ua0. induction ls as [|l t IH]; intros cache Hc Hu; [reflexivity|].
+  intros st. induction ls as [|l t IH]; intros cache Hc; [reflexivity|].
   cbn [c06_decrypt_seq map]. rewrite c06_decrypt_leaf_dec.
-  assert (Hut : c06_uniform st t ua0) by (intros l' ua w Hin; apply Hu; right; exact Hin).
   destruct (c06_leaf_dec st l) as [[ua w]|] eqn:Ed.
-  - pose proof (Hu l ua w (or_introl eq_refl) Ed) as He.
-    rewrite c06_apply_cipher.
-    unfold c06_key_for_object. destruct cache as [ch|].
-    + destruct ((c6c_num ch =? c6l_num l) && (c6c_gen ch =? c6l_gen l)) eqn:Eh.
-      * apply andb_true_iff in Eh. destruct Eh as [E1 E2]. apply N.eqb_eq in E1, E2.
-        cbn [fst snd]. cbn [c06_cache_ok] in Hc. rewrite Hc, E1, E2, <- (He (c6l_num l) (c6l_gen l)).
-        f_equal. apply IH; [exact Hc|exact Hut].
-      * cbn [fst snd]. f_equal. apply IH; [|exact Hut]. cbn [c06_cache_ok c6c_key c6c_num c6c_gen]. apply He.
-    + cbn [fst snd]. f_equal. apply IH; [|exact Hut]. cbn [c06_cache_ok c6c_key c6c_num c6c_gen]. apply He.
-  - f_equal. apply IH; assumption.
+  - rewrite c06_apply_cipher. unfold c06_key_for_object. destruct cache as [ch|].
+    + destruct ((c6c_num ch =? c6l_num l) && (c6c_gen ch =? c6l_gen l) && Bool.eqb (c6c_aes ch) ua) eqn:Eh.
+      * apply andb_true_iff in Eh. destruct Eh as [Eh E3]. apply andb_true_iff in Eh. destruct Eh as [E1 E2].
+        apply N.eqb_eq in E1, E2. apply Bool.eqb_prop in E3.
+        cbn [fst snd]. cbn [c06_cache_ok] in Hc. rewrite Hc, E1, E2, E3. f_equal. apply IH. exact Hc.
+      * cbn [fst snd]. f_equal. apply IH. reflexivity.
+    + cbn [fst snd]. f_equal. apply IH. reflexivity.
+  - f_equal. apply IH. exact Hc.
 Qed.
 
-(* for V 5 every sequence is uniform *)
-Lemma c06_uniform_V5 : forall st ls ua0, 5 <=? c6t_V st = true -> c06_uniform st ls ua0.
-Proof.
-  intros st ls ua0 H5 l ua w _ _ n g. unfold kd_compute_data_key. rewrite H5. reflexivity.
-Qed.
-
-(* decrypt_of_reference_encrypt for a SEQUENCE of leaves read through the key cache (any starting cache that holds a
-   key of the common kind, in particular the empty one): under the hypotheses of the per-leaf theorem and
-   uniformity, the plaintext of every leaf *)
-Lemma decrypt_of_reference_encrypt_sequence_partial_lemma : forall c key st leaves enc ua0,
+(* decrypt_of_reference_encrypt for a SEQUENCE of leaves read through the key cache, from the empty cache: under the
+   hypotheses of the per-leaf theorem, the plaintext of every leaf (no condition on the mixture of methods any more) *)
+Lemma decrypt_of_reference_encrypt_sequence_lemma : forall c key st leaves enc,
   c06_wf_cfg c -> c06_state_for c key st -> c06_key_fits c key -> Forall c06_leaf_wf leaves ->
   map (c06_iso_encrypt_leaf c key) leaves = map Some enc ->
-  c06_uniform st enc ua0 ->
   c06_decrypt_seq st None enc = map (fun l => C6LeafOk (c6l_data l) false) leaves.
 Proof.
-  intros c key st leaves enc ua0 Hwf Hst Hkf HF Henc Hu.
-  rewrite (c06_seq_is_map st ua0 enc None I Hu).
+  intros c key st leaves enc Hwf Hst Hkf HF Henc.
+  rewrite (key_cache_lemma st enc None I).
   apply (decrypt_of_reference_encrypt_data_lemma c key st leaves enc); assumption.
 Qed.
 
-(* Without uniformity the statement is false on the faithful model (finding F11). V 4, /StrF = AESV2, /StmF = RC4 (V2);
-   object 12: a string in the stream dictionary, then the stream data. The stream is RC4-decrypted with the key that was
-   computed (with the "sAlT" suffix) for the string. *)
+(* the input that failed before the fix (finding F11, now fixed): V 4, /StrF = AESV2, /StmF = RC4 (V2); object 12: a
+   string in the stream dictionary, then the stream data *)
 Definition c06_f11_cfg : c06_cfg :=
   {| c6_V := 4; c6_R := 4; c6_keylen := 16; c6_P := 4294967292; c6_encmeta := true; c6_id := [];
      c6_cf := [([83], C6AESV2); ([84], C6V2)]; c6_stmf := [84]; c6_strf := [83] |}.
@@ -99,21 +84,8 @@ Definition c06_f11_leaves : list c06_leaf :=
   [ {| c6l_kind := C6String C6InObject; c6l_num := 12; c6l_gen := 0; c6l_iv := map N.of_nat (seq 1 16); c6l_data := [97; 98; 99] |};
     {| c6l_kind := C6Stream {| c6d_xref := false; c6d_filter := C6FlNone; c6d_dparms := C6DpOne C6PmNull; c6d_rootmeta := false |};
        c6l_num := 12; c6l_gen := 0; c6l_iv := map N.of_nat (seq 1 16); c6l_data := [100; 101; 102; 103] |} ].
-
 Definition c06_f11_enc : list c06_leaf :=
   map (fun l => match c06_iso_encrypt_leaf c06_f11_cfg (repeat 7 16%nat) l with Some x => x | None => l end) c06_f11_leaves.
 
-Lemma key_cache_refuted_lemma :
-  c06_wf_cfg c06_f11_cfg /\ c06_state_for c06_f11_cfg (repeat 7 16%nat) c06_f11_state /\
-  exists enc, map (c06_iso_encrypt_leaf c06_f11_cfg (repeat 7 16%nat)) c06_f11_leaves = map Some enc /\
-              (* each leaf on its own comes back ... *)
-              map (c06_decrypt_leaf c06_f11_state) enc = map (fun l => C6LeafOk (c6l_data l) false) c06_f11_leaves /\
-              (* ... in sequence the stream does not *)
-              c06_decrypt_seq c06_f11_state None enc <> map (fun l => C6LeafOk (c6l_data l) false) c06_f11_leaves.
-Proof.
-  split; [split; reflexivity|]. split; [constructor; intros; reflexivity|].
-  exists c06_f11_enc. split; [vm_compute; reflexivity|]. split; [vm_compute; reflexivity|].
-  vm_compute. discriminate.
-Qed.
-
-Print Assumptions decrypt_of_reference_encrypt_sequence_partial_lemma.
+Print Assumptions key_cache_lemma.
+Print Assumptions decrypt_of_reference_encrypt_sequence_lemma.
